@@ -24,6 +24,7 @@ CONSTANTS Obj,            \* object -> [id, uid, flat (uid without dashes), arch
           Dev_TopKeepsParent,      \* F-11g  a top-level add leaves (and validates against) the variant's old parent link
           UidKey(_),               \* the table key a UID makes (generation: tokens joined by dashes; recorded traces: the string)
           KeyForms,                \* which spellings of add()'s optional variant_id are explored: "id" (the default), "uid", "other"
+          Dev_IdUnchecked,         \* F-11i  two variants of one container may share an ID when one of them is filed under its dashed UID
           Dev_KeyUnchecked         \* F-11h  any variant_id is taken as the table key, the same variant may be filed under two keys
 VARIABLES kids,           \* [container -> [key -> object]]  children dictionaries (key = id; at the top level possibly the UID)
           par,            \* [object -> container or None]   parent back-pointers
@@ -68,6 +69,9 @@ NewPar(c, o) == IF Dev_TopKeepsParent /\ c = ROOT THEN par ELSE [par EXCEPT ![o]
 KeyOf(o, kf) == IF kf = "id" THEN Obj[o].id ELSE IF kf = "uid" THEN UidKey(Obj[o].uid) ELSE "no-such-name"
 KeyAllowed(c, o, kf) == KeyOf(o, kf) = Obj[o].id \/ (kf = "uid" /\ c = ROOT)
 NotTwice(c, o, key) == \A k \in DOMAIN kids[c] : kids[c][k] = o => k = key
+\* the variants of one container have IDs of their own, whatever the keys they are filed under (a document lists a top-level
+\* variant once per ID: two top-level variants "AT" and "A-T" - both of ID AT - are written but cannot be read back)
+IdFree(c, o) == \A k \in DOMAIN kids[c] : kids[c][k] # o => Obj[kids[c][k]].id # Obj[o].id
 AddOkK(c, o, kf) ==
   LET p1  == NewPar(c, o)
       key == KeyOf(o, kf)
@@ -76,6 +80,7 @@ AddOkK(c, o, kf) ==
       /\ (c # ROOT => o \notin Anc(c, p1, N))                     \* not its own ancestor
       /\ (key \in DOMAIN kids[c] => kids[c][key] = o)             \* key not taken by another variant
       /\ (Dev_KeyUnchecked \/ (KeyAllowed(c, o, kf) /\ NotTwice(c, o, key)))
+      /\ (Dev_IdUnchecked \/ IdFree(c, o))
 AddK(c, o, kf) ==
   LET p1  == NewPar(c, o)
       key == KeyOf(o, kf)
@@ -148,6 +153,7 @@ ArchSubset   == \A o \in InForest : par[o] # None => Obj[o].arches \subseteq Obj
 UidUnique    == \A o, q \in InForest : Obj[o].uid = Obj[q].uid => o = q
 ParentMirror == \A c \in Cont : \A o \in Range(kids[c]) : (c = ROOT /\ par[o] = None) \/ (c # ROOT /\ par[o] = c)
 KeyIsId      == \A c \in Cont : \A k \in DOMAIN kids[c] : Obj[kids[c][k]].id = k \/ (c = ROOT /\ k = UidKey(Obj[kids[c][k]].uid))
+SiblingIds   == \A c \in Cont : \A k1, k2 \in DOMAIN kids[c] : Obj[kids[c][k1]].id = Obj[kids[c][k2]].id => kids[c][k1] = kids[c][k2]
 OnceEach     == \A c \in Cont : \A k1, k2 \in DOMAIN kids[c] : kids[c][k1] = kids[c][k2] => k1 = k2
 Findable     == \A o \in InForest :
                    /\ LookupTop(o) = o
